@@ -4,6 +4,7 @@ import (
 	"fmt"
 	"math"
 	"strconv"
+	"strings"
 
 	"pgregory.net/rapid"
 	"verif/lib/refint"
@@ -105,6 +106,8 @@ func genDataEnv() *rapid.Generator[*dataEnv] {
 		e.add("f1", genFloatValue().Draw(rt, "f1"))
 		e.add("s1", spec.String(rapid.SampledFrom(plainStrings).Draw(rt, "s1")))
 		e.add("b1", spec.Bool(rapid.Bool().Draw(rt, "b1")))
+		// (a key of the data map may be long)
+		e.add("i_"+strings.Repeat("k", 64), spec.IntOf(spec.TInt, int64(rapid.IntRange(-5, 5).Draw(rt, "iLong"))))
 		if rapid.IntRange(0, 3).Draw(rt, "keywordLikeNames") == 0 {
 			// words of the language in another letter case are ordinary variable names
 			e.add("True", spec.IntOf(spec.TInt, int64(rapid.IntRange(2, 9).Draw(rt, "vTrue"))))
